@@ -55,7 +55,7 @@ Dom_null == D({"none"}, {<<"AA-MIB">>, <<"BB-MIB", "afile">>}, Src3, {"missing"}
 \* stub slice: --mib-stub=BB-MIB replaces the default stubs (base modules get compiled), pysnmp ships the base modules
 Dom_stub == D({"none"}, {<<"AA-MIB">>, <<"BB-MIB">>}, {"ok"}, {"missing"}, Src3, FF, FF, {"AB", "none"}, {"exact"},
               {"absent", "fresh"}, {"absent"}, {"dir"}, {"name"}, BB, FF, BB, BB,
-              FF, BB, BB, FF, FF, {"no"}, FF, FF)
+              FF, BB, BB, FF, FF, {"no"}, BB, FF)
 
 \* reporting slice: index, quiet, texts/borrower flavour, dry-run / no-writes
 Dom_report == D({"none"}, {<<"AA-MIB">>}, {"ok"}, {"missing"}, Src3, FF, FF, {"AB"}, {"exact"}, Dst3, {"absent"}, {"dir"}, {"name"}, FF, FF, BB, TT,
